@@ -473,14 +473,22 @@ def check_climate(ctx):
         nb = 32
         got = np.asarray(net._cython_calculate_mutual_information(
             anom.copy(), n_bins=nb), float)
+        # the library's own (documented in-place) normaliser, so that the
+        # values entering the symbolisation are bit-identical
+        from pyunicorn.core.data import Data
         a = anom.copy()
-        a -= a.mean(axis=0)
-        a /= a.std(axis=0)
+        Data.normalize_time_series_array(a)
         a32 = a.astype(np.float32)
         lo, hi = float(a32.min()), float(a32.max())
         sc = np.float32(1.0 / (hi - lo))
         resc = (sc * (a32 - np.float32(lo))).astype(np.float64)
         sym = np.where(resc < 1.0, (resc * nb).astype(int), nb - 1)
+        # a sample on a bin boundary is assigned by the last bit of the
+        # float32 arithmetic: the estimator is discontinuous there and no
+        # reference is attainable
+        frac = resc * nb - np.floor(resc * nb)
+        on_edge = bool(np.any((np.minimum(frac, 1 - frac) < 1e-4)
+                              & (resc > 0) & (resc < 1)))
         ref = np.zeros((N, N))
         for i in range(N):
             for j in range(N):
@@ -494,7 +502,9 @@ def check_climate(ctx):
                 m = p > 0
                 ref[i, j] = (p[m] * np.log(p[m] / np.outer(px, py)[m])).sum()
         off = ~np.eye(N, dtype=bool)
-        if np.abs(got - ref)[off].max() > 1e-5:
+        if on_edge:
+            ctx.stat("climate MI: sample on a bin boundary (skipped)")
+        elif np.abs(got - ref)[off].max() > 1e-5:
             ctx.violation(where, "differs from the histogram mutual "
                           "information", key, tags)
         if not np.array_equal(got, got.T):
